@@ -25,9 +25,9 @@ REQUIRED = ["line_events", "lock_acquisitions"]
 EXEC_ENTRIES = ["map", "flat_map", "retry", "retrying", "poll", "throttle", "throttle-queued", "timeout", "cos", "map>retry", "poll>map",
                 "throttle>retry"]
 F_ENTRIES = ["f_map", "f_flat_map", "f_flat_map_inner", "f_zip", "f_sequence", "f_traverse", "f_and", "f_or", "f_apply",
-             "f_nocancel", "f_proxy", "f_timeout"]
+             "f_nocancel", "f_proxy", "f_timeout", "f_map/proxy", "f_zip/proxy", "f_or/proxy"]
 KINDS = ["value", "exc", "inner_cancel", "refused_then_inner_cancel"]
-OPS = ["complete", "cancel", "add_cb", "add_cb_nested", "submit_other"]
+OPS = ["complete", "cancel", "add_cb", "add_cb_nested", "submit_other", "query"]
 
 
 def cases(tier, seed):
@@ -36,6 +36,10 @@ def cases(tier, seed):
     for entry in EXEC_ENTRIES + F_ENTRIES:
         for kind in KINDS:
             out.append({"name": "fut.pairs/%s/%s" % (entry, kind), "kind": "pairs", "entry": entry, "ckind": kind, "cap": cap})
+    for entry in ("poll", "retry", "throttle", "timeout", "poll>map"):
+        for kind in ("value", "exc"):
+            out.append({"name": "fut.pairs-instr/%s/%s" % (entry, kind), "kind": "pairs", "entry": entry, "ckind": kind, "cap": None,
+                        "gran": "instr", "ops": [["cancel", "complete"], ["query", "complete"], ["add_cb", "complete"]]})
     nested_entries = EXEC_ENTRIES + F_ENTRIES if tier == "thorough" else ["map", "retry", "poll", "throttle", "timeout", "f_map", "f_zip", "f_and", "f_proxy"]
     for entry in nested_entries:
         for kind in KINDS:
@@ -74,7 +78,14 @@ class Entry(object):
             ins = self.ins = [SpyFuture("in%d" % i) for i in range(3)]
             if pre is not None:
                 pre(ins)  # e.g. done-callbacks the user registered on the inputs before combining them
-            if name == "f_map":
+            if name.endswith("/proxy"):
+                # the inputs reach the combinator through f_proxy (unknown attributes are forwarded to the result)
+                given = [F.f_proxy(f) for f in ins]
+                self.f = {"f_map/proxy": lambda: F.f_map(given[0], lambda x: ("m", x)), "f_zip/proxy": lambda: F.f_zip(*given),
+                          "f_or/proxy": lambda: F.f_or(*given)}[name]()
+                if name == "f_map/proxy":
+                    self.ins = ins[:1]
+            elif name == "f_map":
                 self.f = F.f_map(ins[0], lambda x: ("m", x))
                 self.ins = ins[:1]
             elif name == "f_flat_map":
@@ -238,7 +249,10 @@ class Probe(object):
             elif r is True and was_done:
                 res.violation("cancel-true-on-finished", "%s: cancel() returned True on a future that had finished normally" % where)
         for (name, e) in self.add_errors:
-            res.violation("add_done_callback-raised/%s" % type(e).__name__, "%s: add_done_callback(%s) raised %r" % (where, name, e))
+            if name in ("running", "done", "cancelled"):
+                res.violation("%s-raised/%s" % (name, type(e).__name__), "%s: %s() raised %r" % (where, name, e))
+            else:
+                res.violation("add_done_callback-raised/%s" % type(e).__name__, "%s: add_done_callback(%s) raised %r" % (where, name, e))
         for name in self.registered:
             runs = self.cbs.get(name, [])
             if len(runs) != 1:
@@ -292,6 +306,17 @@ class PScenario(object):
             ctx.p.add_cb("cb-" + who)
         elif what == "add_cb_nested":
             ctx.p.add_cb("cb-" + who, nested="nested-" + who)
+        elif what == "query":
+            # the state queries of the protocol: they return, they do not raise
+            for qn in ("running", "done", "cancelled"):
+                try:
+                    v = getattr(ctx.p.f, qn)()
+                    if not isinstance(v, bool) and v is not None:
+                        ctx.p.add_errors.append((qn, TypeError("%s() returned %r" % (qn, v))))
+                except (instr.DeadlockBroken, instr.CaseAbort):
+                    raise
+                except BaseException as e:
+                    ctx.p.add_errors.append((qn, e))
         elif what == "submit_other":
             # unrelated traffic on the same executor
             top = getattr(ctx.e, "top", None)
@@ -516,12 +541,15 @@ def run_reentrant(case, res):
 
 def run_pairs(case, res):
     rng = random.Random("c02/%s/%s" % (case["seed"], case["name"]))
-    for a, b in itertools.permutations(OPS, 2):
+    pairs = [tuple(x) for x in case["ops"]] if case.get("ops") else list(itertools.permutations(OPS, 2))
+    for a, b in pairs:
         if {a, b} == {"add_cb", "add_cb_nested"}:
             continue
         if "submit_other" in (a, b) and case["entry"].startswith("f_"):
             continue
-        Sweep(PScenario(case["entry"], case["ckind"], a, b), res, "vt", case["name"]).run(case["cap"], rng, per_site=1)
+        if "query" in (a, b) and not case.get("ops") and {a, b} - {"query", "complete", "cancel"}:
+            continue
+        Sweep(PScenario(case["entry"], case["ckind"], a, b), res, "vt", case["name"], gran=case.get("gran")).run(case["cap"], rng, per_site=1)
         if harness.need_recycle():
             return
 
@@ -627,6 +655,10 @@ def run_waiters(case, res):
                     res.violation("waiter-not-released/underlying-work-cancelled",
                                   "%s: the underlying work was cancelled (%s) but the future never completes: threads blocked in result()/wait() stay blocked"
                                   % (case["entry"], kind))
+                elif kind in ("value", "exc") and case["entry"] not in ("retrying",):
+                    res.violation("waiter-not-released/underlying-work-ended",
+                                  "%s: everything the future depends on has ended (%s) but the future never completes: threads blocked in "
+                                  "result()/wait() stay blocked" % (case["entry"], kind))
                 else:
                     res.count("foreign.future_still_pending")
                 continue
